@@ -790,6 +790,7 @@ fn c06_group(g: &C06Group) -> (Vec<Violation>, CaseOut) {
     // counts[(owner, w)][value] = (ones, total)
     let mut counts: BTreeMap<(usize, usize), [(u64, u64); 2]> = BTreeMap::new();
     let canary = g.base.inputs.iter().any(|i| i.len() >= 128) && !g.balance_wide;
+    let mut fresh_seen: std::collections::HashSet<(&'static str, u64)> = std::collections::HashSet::new();
     for r in 0..g.runs {
         let s = c06_run_spec(g, r, canary);
         let run = mpcrun::run(&s, None);
@@ -814,6 +815,37 @@ fn c06_group(g: &C06Group) -> (Vec<Violation>, CaseOut) {
             None => {
                 v.push(viol("harness-error", "c06-decode", "cannot locate masked inputs / wire shares in the transcript".into(), &sv));
                 break;
+            }
+        }
+        // secret randomness probed at its point of use (sites "fresh:*"): every value has the byte
+        // diversity of random data and never occurs twice (any party, any execution of the group)
+        for p in 0..n {
+            for pr in run.res.probes[p].iter().filter(|x| x.site.starts_with("fresh:") && x.data.len() >= 16) {
+                let mut seen = [false; 256];
+                for b in &pr.data {
+                    seen[*b as usize] = true;
+                }
+                let distinct = seen.iter().filter(|x| **x).count();
+                let need = (pr.data.len().min(128) / 4).max(2);
+                out.count("secret_randomness_values_tested", 1);
+                if distinct < need {
+                    v.push(viol(
+                        "secret-randomness-degenerate",
+                        &format!("secret-randomness-degenerate:{}", pr.site),
+                        format!("party {p}, execution {r}: the {} bytes used at '{}' take only {distinct} distinct values (random data has at least {need} with overwhelming probability): {:02x?}", pr.data.len(), pr.site, &pr.data[..pr.data.len().min(24)]),
+                        &sv,
+                    ));
+                    return (v, out);
+                }
+                if !fresh_seen.insert((pr.site, entropy::fnv(0, &pr.data))) {
+                    v.push(viol(
+                        "secret-randomness-repeated",
+                        &format!("secret-randomness-repeated:{}", pr.site),
+                        format!("party {p}, execution {r}: the value used at '{}' was used before in this group of executions", pr.site),
+                        &sv,
+                    ));
+                    return (v, out);
+                }
             }
         }
         // keys and own mask vectors for the uniqueness check
@@ -1024,7 +1056,7 @@ impl Check for C06 {
         "exploration"
     }
     fn rule(&self) -> String {
-        "each case fixes a configuration (n in {2,3}) and executes it N times per input value (N=200 quick, 2000 thorough; fresh coins and schedule seed each) with all input bits 0 resp. 1; from the transcript alone, for every input wire: b = decoded 'masked inputs' bit xor the bits the other parties sent to the owner in 'wire shares'; the count of b=1 must lie within 6.5 sigma of N/2 for input 0 and input 1 alike. Canary cases: a party with 128 random input bits, its outgoing traffic scanned for the run as 128 bool bytes, as 16 packed bytes in both bit orders and as a run in the decoded bool stream. Wide configurations (129 input wires) run under the balance test too, and there the vector of a party's own shares of the masks of its own input wires must not appear in its traffic, and the one-time pads of the half-authenticated AND (probed) must be fresh: no run of more than 64 equal pad bits, balanced overall. All probed global keys, and all own-mask vectors of >= 64 bits, must be pairwise distinct over all runs and parties. fashare level (n in 2..4, l in {1,2,3,7,40,128,129,1000}): none of the MACs a party holds on the shares fashare returns to it, and none of the keys it holds for the others' returned shares, appears at any byte offset (either byte order) in anything it sent - the consistency round opens only the RHO extra shares. evaluations = simulated runs; distinct = (configuration, run) coins".into()
+        "each case fixes a configuration (n in {2,3}) and executes it N times per input value (N=200 quick, 2000 thorough; fresh coins and schedule seed each) with all input bits 0 resp. 1; from the transcript alone, for every input wire: b = decoded 'masked inputs' bit xor the bits the other parties sent to the owner in 'wire shares'; the count of b=1 must lie within 6.5 sigma of N/2 for input 0 and input 1 alike. Canary cases: a party with 128 random input bits, its outgoing traffic scanned for the run as 128 bool bytes, as 16 packed bytes in both bit orders and as a run in the decoded bool stream. Wide configurations (129 input wires) run under the balance test too, and there the vector of a party's own shares of the masks of its own input wires must not appear in its traffic, and the one-time pads of the half-authenticated AND (probed) must be fresh: no run of more than 64 equal pad bits, balanced overall. All probed global keys, and all own-mask vectors of >= 64 bits, must be pairwise distinct over all runs and parties. Secret randomness probed at its point of use (KOS choice-bit padding, OT-extension base key and seed pairs, base-OT sender scalar): every value has the byte diversity of random data and none occurs twice within a group of executions. fashare level (n in 2..4, l in {1,2,3,7,40,128,129,1000}): none of the MACs a party holds on the shares fashare returns to it, and none of the keys it holds for the others' returned shares, appears at any byte offset (either byte order) in anything it sent - the consistency round opens only the RHO extra shares. evaluations = simulated runs; distinct = (configuration, run) coins".into()
     }
     fn assumptions(&self) -> Vec<String> {
         vec![
